@@ -378,6 +378,7 @@ func probe(w *world, rep *vevid.Report, args []string) {
 			c.Steps = append(c.Steps, Step{Op: a})
 		}
 	}
+	c.Schema = os.Getenv("C11_SCHEMA")
 	if os.Getenv("C11_MENU") != "" {
 		c.Menu = os.Getenv("C11_MENU")
 	}
